@@ -1,0 +1,11 @@
+//go:build verif
+
+package fragswarm
+
+import "sync/atomic"
+
+// VerifFirstMsgID lets a simulation start the per-peer message ids anywhere in their range
+// (header sizes and wrap-around depend on them).  Only present under the build tag verif.
+var VerifFirstMsgID atomic.Uint32
+
+func firstMsgID() uint32 { return VerifFirstMsgID.Load() }
